@@ -67,6 +67,14 @@ def replay_file(path, repo):
     return 0
 
 
+def _ob_match(pattern, name):
+    """a known finding names one obligation, or (with '*') the obligations of one fixed input that differ only in the configuration part of the name"""
+    if "*" in pattern:
+        import fnmatch
+        return fnmatch.fnmatchcase(name, pattern)
+    return pattern == name
+
+
 def write_replay(prop, name, payload):
     d = os.path.join(VERIF, "replays")
     os.makedirs(d, exist_ok=True)
@@ -192,7 +200,7 @@ def finish(prop, tier, seed, repo, hs, results, extra, wall, args):
     for v in violations:
         kf = None
         for k in known:
-            if k.get("status") == "known" and k["obligation"] == v["obligation"] and _in_region(k, v):
+            if k.get("status") == "known" and _ob_match(k["obligation"], v["obligation"]) and _in_region(k, v):
                 kf = k
         if kf:
             fired.append(kf)
